@@ -394,3 +394,146 @@ register("C03", [
     Kernel("apply_mask_shape_slice", T, "apply_mask", [], "((1 : Int), (none : Option Int))", _shape_slice_build,
            ret_type="Int × Option Int", imports=("DirectVerif.Model.Mask",)),
 ])
+
+
+# =================================================================================================
+# every masking site under direct/nn (phase 2): torch.where(<mask> …), apply_mask, mask products, masked_fill
+import re as _re
+
+from ..pyexpr import parse_file  # noqa: E402
+
+_MASKY = _re.compile(r"(^|_)mask($|_)")
+
+
+def _masky(node: ast.AST) -> bool:
+    """an expression that denotes a sampling mask (not `masked_kspace`)"""
+    if isinstance(node, ast.Name):
+        return bool(_MASKY.search(node.id))
+    if isinstance(node, ast.Attribute):
+        return bool(_MASKY.search(node.attr))
+    if isinstance(node, ast.Subscript):
+        if isinstance(node.slice, ast.Constant) and isinstance(node.slice.value, str):
+            return bool(_MASKY.search(node.slice.value))
+        return _masky(node.value)
+    if isinstance(node, ast.UnaryOp) and isinstance(node.op, (ast.Invert, ast.Not)):
+        return _masky(node.operand)
+    if isinstance(node, ast.BinOp) and isinstance(node.op, ast.Sub):
+        return _masky(node.right) and _number(node.left) is not None
+    if isinstance(node, ast.Call) and isinstance(node.func, ast.Attribute) and node.func.attr in (
+            "float", "to", "bool", "int", "type", "unsqueeze", "squeeze", "expand", "expand_as", "clone", "detach"):
+        return _masky(node.func.value)
+    return False
+
+
+def _zero_dtype_of(node: ast.AST) -> str:
+    node = _strip_to(node)
+    if isinstance(node, ast.Call):
+        for kw in node.keywords:
+            if kw.arg == "dtype":
+                t = ast.unparse(kw.value)
+                return t[:-len(".dtype")] if t.endswith(".dtype") else t
+    return ""
+
+
+def _lean_str(s: str) -> str:
+    return '"' + " ".join(s.split()).replace("\\", "\\\\").replace('"', "'") + '"'
+
+
+def scan_nn_sites(repo) -> list[dict]:
+    import pathlib
+
+    sites = []
+    root = pathlib.Path(repo) / "direct" / "nn"
+    for path in sorted(root.rglob("*.py")):
+        rel = str(path.relative_to(repo))
+        try:
+            tree = parse_file(path)
+        except Untranslatable:
+            continue
+
+        def visit(node, qual):
+            for ch in ast.iter_child_nodes(node):
+                if isinstance(ch, (ast.FunctionDef, ast.AsyncFunctionDef, ast.ClassDef)):
+                    visit(ch, (qual + "." if qual else "") + ch.name)
+                else:
+                    handle(ch, qual)
+                    visit(ch, qual)
+
+        def handle(n, qual):
+            if isinstance(n, ast.Call):
+                fname = ast.unparse(n.func)
+                if fname == "torch.where" and len(n.args) == 3 and any(_masky(x) for x in ast.walk(n.args[0])):
+                    pred, a, b = n.args
+                    form = None
+                    if (isinstance(pred, ast.Compare) and len(pred.ops) == 1 and _masky(pred.left)
+                            and isinstance(pred.ops[0], (ast.Eq, ast.NotEq))):
+                        c = _number(pred.comparators[0])
+                        if c == "negzero":
+                            c = 0
+                        if c is not None and float(c) == int(c):
+                            try:
+                                ka, kb = _const_branch(a), _const_branch(b)
+                            except Untranslatable:
+                                ka = kb = None
+                                c = None
+                            if c is not None and (ka is None) != (kb is None):
+                                br = lambda k: ".data" if k is None else f"(.const {k})"  # noqa: E731
+                                form = (f".whereForm {{ predEq := {'true' if isinstance(pred.ops[0], ast.Eq) else 'false'}, "
+                                        f"predLit := {int(c)}, thenB := {br(ka)}, elseB := {br(kb)} }}")
+                                data = b if ka is not None else a
+                                zero = a if ka is not None else b
+                                sites.append({"file": rel, "func": qual, "form": form, "kind": "where",
+                                              "operand": ast.unparse(data), "mask": ast.unparse(pred.left),
+                                              "zero": _zero_dtype_of(zero)})
+                                return
+                    sites.append({"file": rel, "func": qual, "form": '.flagged "torch.where with an unrecognised predicate/branches"',
+                                  "kind": "where?", "operand": ast.unparse(n.args[2]), "mask": ast.unparse(n.args[0]), "zero": ""})
+                elif fname.split(".")[-1] == "apply_mask" and len(n.args) >= 2:
+                    comp = isinstance(n.args[1], ast.UnaryOp) and isinstance(n.args[1].op, ast.Invert)
+                    sites.append({"file": rel, "func": qual, "form": f".applyMask {'true' if comp else 'false'}",
+                                  "kind": "apply_mask", "operand": ast.unparse(n.args[0]), "mask": ast.unparse(n.args[1]), "zero": "kspace"})
+                elif isinstance(n.func, ast.Attribute) and n.func.attr in ("masked_fill", "masked_fill_", "masked_scatter"):
+                    sites.append({"file": rel, "func": qual, "form": f'.flagged "{n.func.attr}"', "kind": n.func.attr,
+                                  "operand": ast.unparse(n.func.value), "mask": ast.unparse(n.args[0]) if n.args else "", "zero": ""})
+                elif fname in ("torch.mul", "torch.multiply") and any(_masky(x) for x in n.args):
+                    sites.append({"file": rel, "func": qual, "form": '.flagged "multiplication by the mask"', "kind": "mul",
+                                  "operand": ast.unparse(n.args[0]), "mask": ast.unparse(n.args[1]), "zero": ""})
+            elif isinstance(n, ast.BinOp) and isinstance(n.op, ast.Mult) and (_masky(n.left) or _masky(n.right)):
+                m, d = (n.left, n.right) if _masky(n.left) else (n.right, n.left)
+                sites.append({"file": rel, "func": qual, "form": '.flagged "multiplication by the mask"', "kind": "mul",
+                              "operand": ast.unparse(d), "mask": ast.unparse(m), "zero": ""})
+            elif isinstance(n, ast.AugAssign) and isinstance(n.op, ast.Mult) and _masky(n.value):
+                sites.append({"file": rel, "func": qual, "form": '.flagged "multiplication by the mask"', "kind": "mul",
+                              "operand": ast.unparse(n.target), "mask": ast.unparse(n.value), "zero": ""})
+
+        visit(tree, "")
+    return sites
+
+
+def _sites_lean(sites: list[dict]) -> str:
+    rows = []
+    for s in sites:
+        rows.append(f"  {{ file := {_lean_str(s['file'])}, func := {_lean_str(s['func'])}, form := {s['form']},\n"
+                    f"    operand := {_lean_str(s['operand'][:120])}, mask := {_lean_str(s['mask'])}, zeroDtypeOf := {_lean_str(s['zero'])} }}")
+    return ("/-- every masking site under `direct/nn` (AST scan: `torch.where(<mask> …)`, `apply_mask`, products with a mask, "
+            "`masked_fill`) -/\ndef nn_mask_sites : List Site := [\n" + ",\n".join(rows) + "\n]\n")
+
+
+_prev_extra = EXTRA["C03"]
+
+
+def _c03_extra_with_sites():
+    from ..gen import REPO
+
+    text, status = _prev_extra()
+    try:
+        sites = scan_nn_sites(REPO)
+        text += "\n" + _sites_lean(sites)
+        status["nn_mask_sites"] = f"translated ({len(sites)} sites)"
+    except Exception as e:  # noqa: BLE001 - never an alarm by itself
+        text += f"\n/-- SKIPPED ({type(e).__name__}: {e}) -/\ndef nn_mask_sites : List Site := Mask.knownSites\n"
+        status["nn_mask_sites"] = f"skipped: {e}"
+    return text, status
+
+
+EXTRA["C03"] = _c03_extra_with_sites
